@@ -118,7 +118,7 @@ fn absorb(agg: &mut Agg, stage: &str, case: &str, o: &Value) {
             if let (Some(evs), Some(f)) = (d.get("events").and_then(|e| e.as_array()), agg.trace_out.as_mut()) {
                 // drifted histories are judged by the P-layer in TLC; cap per kind, keep the file small
                 let nocap = d.get("nocap").and_then(|b| b.as_bool()).unwrap_or(false);
-                if nocap || (*n <= 60 && agg.trace_histories < 1500) {
+                if nocap || (*n <= 120 && agg.trace_histories < 4000) {
                     agg.trace_histories += 1;
                     for e in evs { let _ = writeln!(f, "{}", e); }
                 }
